@@ -762,7 +762,14 @@ func (pe *PolicyEngine) addRepresentativePod(podNs string, objSelectors *k8s.Sin
 		return err
 	}
 	keyStrFromLabels := nsKey + "/" + podKey
-	if _, ok := pe.representativePeersMap[keyStrFromLabels]; ok { // we already have a representative peer with same labels
+	if existing, ok := pe.representativePeersMap[keyStrFromLabels]; ok { // we already have a representative peer with same labels
+		// equivalent selectors may be spelled differently (e.g. app=x and app In [x]); keep the spelling that is
+		// first in a fixed order, so that the representative peer does not depend on the order of policies and rules
+		if selectorsSpelling(nsLabelSelector, objSelectors.PodSelector) <
+			selectorsSpelling(existing.Pod.RepresentativeNsLabelSelector, existing.Pod.RepresentativePodLabelSelector) {
+			existing.Pod.RepresentativeNsLabelSelector = nsLabelSelector
+			existing.Pod.RepresentativePodLabelSelector = objSelectors.PodSelector
+		}
 		return nil
 	}
 	// create a new representative peer
@@ -770,4 +777,9 @@ func (pe *PolicyEngine) addRepresentativePod(podNs string, objSelectors *k8s.Sin
 	// add the new representative peer to the policy-engine
 	pe.representativePeersMap[keyStrFromLabels] = newRepresentativePeer
 	return nil
+}
+
+// selectorsSpelling returns a string which spells out the given namespace and pod selectors as written in the policy rule
+func selectorsSpelling(nsSelector, podSelector *metav1.LabelSelector) string {
+	return nsSelector.String() + "/" + podSelector.String()
 }
